@@ -10,6 +10,7 @@ VERIF = os.path.dirname(os.path.dirname(os.path.abspath(__file__)))
 ORIGIN = {
     "R2": "round 2: an independent sub-agent that saw only the property text and its own scratch worktree, asked for ONE change that is as hard to detect as possible for a generate-and-compare checker",
     "R3": "round 3: an independent sub-agent that saw only the property text, its own scratch worktree and a list of the kinds of change earlier rounds had already tried, asked for ONE change of a different kind that is as hard to detect as possible",
+    "R8": "round 8: an independent sub-agent that saw only the property text and its own scratch worktree, asked for THREE ordinary pull requests (performance, feature/robustness, refactor) with one honest mistake each (prompt selftest/prompts/round8.tmpl)",
     "R7": "round 7: as round 6 (prompt selftest/prompts/round7.tmpl: the list of already-tried kinds also names the round-6 kinds)",
     "R6": "round 6: as round 5 (prompt selftest/prompts/round6.tmpl: the list of already-tried kinds also names the round-5 kinds)",
     "R5": "round 5: as round 4 (prompt selftest/prompts/round5.tmpl: the list of already-tried kinds also names the round-4 kinds)",
@@ -25,6 +26,8 @@ def main():
     prefix = sys.argv[1]
     quick = load(os.path.join(VERIF, "selftest", "results.json"))
     thorough = load(os.path.join(VERIF, "selftest", "results_thorough.json"))
+    # round 8: detection established with the harness built against a scratch copy of the crate with the patch applied
+    scratch = load(os.path.join(VERIF, "selftest", "results_scratch_r8.json"))
     for d in sorted(os.listdir(os.path.join(VERIF, "seeded"))):
         if not d.startswith(prefix):
             continue
@@ -43,9 +46,15 @@ def main():
             "verified_by_me": "selftest/verify_seed.sh in the scratch worktree (patch applies; builds with and without default features; suite 239 pass / 2 baseline failures; 6 doc tests pass; demo.rs fails with the patch and passes without); then applied to /repo (git apply), checks run, undone (git checkout -- .)",
             "how_run": f"python3 selftest/run.py seeded/{d}/patch.diff <Cxx> [quick|thorough]",
         }
+        sc = scratch.get(d)
+        if sc:
+            m["checks_run_scratch"] = sc
         for name, res in (("checks_run_quick", quick), ("checks_run_thorough", thorough)):
             if res.get(key):
                 m[name] = {p: {"exit": r["exit"], "signatures": r["sigs"], "wall_s": r["wall"]} for p, r in res[key].items() if isinstance(r, dict)}
+        if sc and "checks_run_quick" not in m:
+            m["verified_by_me"] = m["verified_by_me"].split("; then applied to /repo")[0] + "; then applied to a scratch copy of the crate (patch -p1), the harness rebuilt against that copy, and the listed shards of the quick tier of the main build run (checks_run_scratch)"
+            m["how_run"] = f"python3 selftest/run.py seeded/{d}/patch.diff <Cxx> [quick|thorough]  (not run through the driver for this seed)"
         json.dump(m, open(os.path.join(sd, "meta.json"), "w"), indent=1)
         print(d, m.get("checks_run_quick"))
 
